@@ -373,6 +373,12 @@ def generate(rng, tier):
         c = gen_call(rng, dicts=True)
         op = 'cally' if j % 3 else 'callz'
         yield dict(tag=c['tag'].replace('lift ', 'lifty ' if op == 'cally' else 'liftz ', 1), lines=[l.replace('(lift call ', '(lift %s ' % op, 1) for l in c['lines']])
+    # the factory's dict classes with keys on which they overload __getitem__ (`callq`)
+    yield dict(tag='liftq dictattr with a tuple key made of its other keys', lines=['(lift callq %s %s (D))' % (proto.hexs(TOP), enc([{'a': 'P', 'b': 'Q', 'c': 'X'}]))])
+    yield dict(tag='liftq dictattr companion with a tuple key', lines=['(lift callq %s %s (D))' % (proto.hexs(TOP), enc([{'c': 1, 'a': 2, 'b': 3, 'k': 4}, {'c': 10, 'a': 20, 'b': 30, 'k': 40}]))])
+    for j in range(500 if q else 5000):
+        c = gen_call(rng, dicts=True)
+        yield dict(tag=c['tag'].replace('lift ', 'liftq ', 1), lines=[l.replace('(lift call ', '(lift callq ', 1) for l in c['lines']])
     for _ in range(1200 if q else 12000):
         yield gen_lib(rng)
     for _ in range(1200 if q else 12000):
@@ -517,6 +523,17 @@ def run_line(state, sx):
         same_types(a[0] if a else kw[TOP], res)
         back = {v: k for k, v in m1.items()}            # 1.0 == 1 and hash(1.0) == hash(1): both spellings map back
         return 'ok ' + enc(unexo(res, back))
+    if op == 'callq':
+        # the dict classes the `loop` factory adds (_dict.py:163-173: Dict, dictattr, OrderedDict) as looped argument and as
+        # companions, with keys on which these classes overload `__getitem__` (a tuple key = multi-get, a callable key = apply):
+        # a lifted function must read its dicts as the mappings they are (review t5: `lower(dictattr({'a':'P','b':'Q',('a','b'):'X'}))`
+        # lost the leaf 'X')
+        a0, kw0 = proto.dec(args[1]), proto.dec(args[2])
+        a = [exq(x, 0, 0 if j == 0 else 1) for j, x in enumerate(a0)]
+        kw = {n: exq(c, 0, 0 if (n == TOP and not a0) else 1) for n, c in kw0.items()}
+        res = lifted(rec)(*a, **kw)
+        same_types_q(a[0] if a else kw[TOP], res)
+        return 'ok ' + enc(unexq(res))
     if op == 'call':
         a, kw = proto.dec(args[1]), proto.dec(args[2])
         before = enc([a, kw])
@@ -645,7 +662,7 @@ def ref_lift(fn, v, pos, kw):
     return fn(v, *pos, **kw)
 
 
-CALL_OPS = ('call', 'callx', 'cally', 'callz')
+CALL_OPS = ('call', 'callx', 'cally', 'callz', 'callq')
 
 
 def clear_expected(line, pop_axis=False):
@@ -777,6 +794,51 @@ def exotic(rng, v, nt, keys):
 KEYMAP_Y = {'a': 1, 'b': 'b', 'c': 3, 'd': 2.5, 'k': None}          # the looped argument of a `cally` line
 KEYMAP_Y2 = {'a': 1.0, 'b': 'b', 'c': 3.0, 'd': 2.5, 'k': None}     # its companions: the same keys (1 == 1.0), spelt as floats
 KEYMAP_Z = {'a': (1, 'x'), 'b': ('x', 1), 'c': (None, 2), 'd': 'd', 'k': (2.5,)}    # `callz`: tuple keys of mixed content
+
+
+KEYMAP_Q = {'a': 'a', 'b': 'b', 'c': ('a', 'b'), 'd': int, 'k': ('a',)}      # `callq`: keys on which dictattr / Dict overload __getitem__
+_KEYBACK_Q = {v: k for k, v in KEYMAP_Q.items()}
+
+
+def _classes_q():
+    from pyg_base import Dict, dictattr
+    return [dictattr, Dict, dict, collections.OrderedDict]
+
+
+def exq(v, depth, salt):
+    """deterministic: every dict becomes one of dictattr / Dict / dict / OrderedDict (by size, depth and role), keys through KEYMAP_Q"""
+    if isinstance(v, dict):
+        cls = _classes_q()[(len(v) + depth + salt) % 4]
+        return cls({KEYMAP_Q.get(k, k): exq(x, depth + 1, salt) for k, x in v.items()})
+    if isinstance(v, list):
+        return [exq(x, depth + 1, salt) for x in v]
+    if isinstance(v, tuple):
+        return tuple(exq(x, depth + 1, salt) for x in v)
+    return v
+
+
+def unexq(v):
+    if isinstance(v, dict):
+        return {_KEYBACK_Q.get(k, k): unexq(x) for k, x in dict.items(v)}
+    if isinstance(v, list):
+        return [unexq(x) for x in v]
+    if isinstance(v, tuple):
+        return tuple(unexq(x) for x in v)
+    return v
+
+
+def same_types_q(v, r):
+    """the result has the container classes and keys (in order) of the looped argument; dicts are read with dict.__getitem__"""
+    if isinstance(v, dict):
+        if type(r) is not type(v) or list(dict.keys(r)) != list(dict.keys(v)):
+            raise AssertionError('container type / keys not kept: %s -> %s' % (type(v).__name__, type(r).__name__))
+        for k in dict.keys(v):
+            same_types_q(dict.__getitem__(v, k), dict.__getitem__(r, k))
+    elif isinstance(v, (list, tuple)):
+        if type(r) is not type(v) or len(r) != len(v):
+            raise AssertionError('container type / length not kept: %s -> %s' % (type(v).__name__, type(r).__name__))
+        for x, y in zip(v, r):
+            same_types_q(x, y)
 
 
 def exo(v, keymap=None):
@@ -929,6 +991,22 @@ def laws(rng, tier, ctx):
             if enc(once) != enc(twice) or type(once) is not type(twice):
                 yield Finding('violation', dict(tag='law-%s-idem' % op, lines=['(lift %s %s)' % (op, enc(v))]),
                               '%s(v) = %s but %s(%s(v)) = %s' % (nm, enc(once), nm, nm, enc(twice)))
+    # (4b) ... also on the iterables `is_rng` accepts, which the wire cannot spell (review t5): dict key / value views, ranges, zips (an items view is not `is_rng`: it is wrapped like a scalar).  They are
+    # read as the list of their items, so the replay line (and the K2 class: exactly one item, a list) is that of `list(v)`
+    for mkv, what in [(lambda: {'a': [1, 2]}.values(), "{'a':[1,2]}.values()"), (lambda: {'a': 1, 'b': 2}.keys(), "{'a':1,'b':2}.keys()"),
+                      (lambda: range(3), 'range(3)'), (lambda: range(0), 'range(0)'),
+                      (lambda: range(1), 'range(1)'), (lambda: zip([1, 2], [3, 4]), 'zip([1,2],[3,4])'), (lambda: {'a': [[1]]}.values(), "{'a':[[1]]}.values()"),
+                      (lambda: {}.values(), '{}.values()'), (lambda: {'a': (1, 2)}.values(), "{'a':(1,2)}.values()")]:
+        for nm, fn, op in (('as_list', as_list, 'aslist'), ('as_tuple', as_tuple, 'astuple')):
+            count += 1
+            once = fn(mkv())
+            twice = fn(copy.deepcopy(once))
+            if enc(once) != enc(fn(list(mkv()))) or type(once) is not (list if op == 'aslist' else tuple):
+                yield Finding('violation', dict(tag='law-%s-iterable' % op, lines=[], values=[what]),
+                              '%s(%s) = %s but %s of the list of its items = %s' % (nm, what, enc(once), nm, enc(fn(list(mkv())))))
+            elif enc(once) != enc(twice) or type(once) is not type(twice):
+                yield Finding('violation', dict(tag='law-%s-idem' % op, lines=['(lift %s %s)' % (op, enc(list(mkv())))], values=[what]),
+                              '%s(v) = %s but %s(%s(v)) = %s for v = %s' % (nm, enc(once), nm, nm, enc(twice), what))
     # (5) the public text / number helpers are the lifted leaf functions (shape and leaves), on same-shape / scalar companions
     for _ in range(n // 2):
         name = rng.choice(['lower', 'upper', 'strip', 'proper', 'f12', 'as_float', 'split', 'replace'])
